@@ -8,6 +8,7 @@ WsStable), D4r (paragraph mode with visible separator affixes and an over-long n
 import RosedVerif.Spec.AlignLemmas
 import RosedVerif.Spec.WrapLemmas
 import RosedVerif.Model.JustifyLemmas
+import RosedVerif.Model.BridgeWrap
 namespace RosedVerif.Props
 open RosedVerif RosedVerif.Spec
 variable {α : Type} (tk : Toks α)
@@ -47,5 +48,22 @@ gives back the words -/
 theorem C07_justify [DecidableEq α] (cx : Ctx α) (ws : List (List α)) (extra : List Nat)
     (h : ∀ w ∈ ws, cx.sp ∉ w) : (interleave cx ws extra).filter (fun a => a != cx.sp) = ws.flatten :=
   interleave_words cx ws extra h
+
+/-- **bridge to code points**: on a stable vocabulary (see `C06_code_points`) the model of
+CollapseSpace run on CODE POINTS with the real segmentation returns the flattening of the
+specification's result on clusters; segmenting that output gives those clusters back, and its
+non-whitespace clusters are exactly the input's, in order. -/
+theorem C07_collapse_code_points {V : List (List Int)} (hV : VocabStable V = true)
+    (hsp : [0x20] ∈ V) (hspTail : ∀ t ∈ V, (0x20 : Int) ∉ t.tail)
+    (toks : List (List Int)) (ht : ∀ t ∈ toks, t ∈ V) :
+    ∃ out, collapseSpace cxA toks.flatten [] = .ok out ∧
+      clusters cxA out = Spec.collapse ⟨cxB.isSpace, cxB.sp, cxB.hy⟩ toks ∧
+      (clusters cxA out).filter (fun c => !cxB.isSpace c) = toks.filter (fun c => !cxB.isSpace c) := by
+  obtain ⟨r, _, h2, h3, h4, _⟩ := BridgeWrap.collapseSpace_bridge_full hV hsp hspTail toks ht
+  have hc : clusters cxA r.flatten = r := clusters_flatten_stable r (stableRunes_of_vocab V hV r h4)
+  refine ⟨r.flatten, h2, ?_, ?_⟩
+  · rw [hc, h3]
+  · rw [hc, h3]
+    exact collapse_nonws ⟨cxB.isSpace, cxB.sp, cxB.hy⟩ BridgeWrap.cxB_sp_space toks
 
 end RosedVerif.Props
